@@ -424,6 +424,7 @@ def evaluate(R, cases, mlref, rsref, tier):
         R.case((c['src'], c['target']), nontrivial=bool(nontrivial), kind=kind)
         if c['kind'] == 'generated':
             R.hist['target_metavars=%s' % info.get('nvars')] = R.hist.get('target_metavars=%s' % info.get('nvars'), 0) + 1
+            R.hist['rule_vars=%s' % info.get('rule_vars')] = R.hist.get('rule_vars=%s' % info.get('rule_vars'), 0) + 1
             for u in info.get('uses', []):
                 R.hist['uses:' + u] = R.hist.get('uses:' + u, 0) + 1
         if not valid:
